@@ -121,7 +121,17 @@ def make_scaled(c, lam=0.0):
     return scaled
 
 
-CUSTOM = {"half": make_scaled(0.5), "double": make_scaled(2), "triple": make_scaled(3), "lenpen": make_scaled(1, 1.5),
+def cd_tenths(a, b):
+    """0.1 per edit, accumulated by repeated addition (0.1+0.1+0.1 = 0.30000000000000004 > 0.3): the radius test must be the
+    exact comparison d <= max_custom_distance, not an approximate one."""
+    a, b = _sorted(a, b)
+    t = 0.0
+    for _ in range(_O.lev(a, b)):
+        t += 0.1
+    return t
+
+
+CUSTOM = {"tenths": cd_tenths, "half": make_scaled(0.5), "double": make_scaled(2), "triple": make_scaled(3), "lenpen": make_scaled(1, 1.5),
           "one_and_half": make_scaled(1.5), "unit": make_scaled(1),
           "discrete": cd_discrete, "blocks": cd_blocks, "int_blocks": cd_int_blocks}
 
